@@ -3,14 +3,14 @@ from vf.bmc import runner
 
 META = {
     "explanation": "Bounded model checking with a symbolic schedule: the bytecode of FunctorMap.__enter__/__exit__/__call__ "
-                   "(+ chunking), pools.FunctorWorker.run and Buffer.* as loaded from /repo is executed symbolically into "
+                   "(+ chunking), pools.FunctorWorker.run, maps.mul_p_map, workers.FunRunner.run and Buffer.* as loaded from /repo is executed symbolically into "
                    "control-flow automata (one per thread of control); z3 decides, for every interleaving of the parent loop "
                    "and the workers and every input length n<=N, that the output equals [f(0..n-1)], that no deadlock is "
                    "reachable, and (unwinding query) that every execution is shorter than K steps.",
-    "bounds": {"quick": {"workers": "1,2", "chunk_size": "1,2", "items": "<=2", "calls": "1 (2 for one configuration)"},
-               "thorough": {"workers": "1,2", "chunk_size": "1,2", "items": "<=3", "calls": "1,2"}},
-    "outside_bounds": ["more items/workers/calls", "mul_p_map (same protocol with class-level queues; its final sorted() is "
-                       "encoded but the configuration is run in the thorough tier only)", "spawn/forkserver pickling",
+    "bounds": {"quick": {"workers": "1,2", "chunk_size": "1,2", "items": "<=2", "calls": "1 (2 for one configuration)", "mul_p_map": "workers 1,2, items<=2"},
+               "thorough": {"workers": "1,2", "chunk_size": "1,2", "items": "<=3", "calls": "1,2", "mul_p_map": "workers 1..3 (data shorter than the worker count included), items<=3"}},
+    "outside_bounds": ["more items/workers/calls", "mul_p_map's class-level WORK_QUEUE bound is cpu_count() in reality; bounds 1 and 2 "
+                       "are modelled", "spawn/forkserver pickling",
                        "multiprocessing.Queue feeder-thread reordering between different producers (queues are modelled "
                        "as atomic FIFOs; the reorder Buffer makes the result independent of arrival order)"],
     "assumptions": ["multiprocessing.Queue(maxsize) behaves as an atomic bounded FIFO; Process.start/join as thread start/join",
@@ -27,12 +27,17 @@ def configs(tier):
         out.append({"kind": "fmap", "workers": 2, "cs": 1, "nmax": 2, "calls": 1})
         out.append({"kind": "fmap", "workers": 1, "cs": 2, "nmax": 2, "calls": 1})
         out.append({"kind": "fmap", "workers": 1, "cs": 1, "nmax": 1, "calls": 2})
+        out.append({"kind": "mulpmap", "workers": 1, "nmax": 2, "wq": 2})
+        out.append({"kind": "mulpmap", "workers": 2, "nmax": 2, "wq": 1})
     else:
         for wk in (1, 2):
             for cs in (1, 2):
                 out.append({"kind": "fmap", "workers": wk, "cs": cs, "nmax": 3, "calls": 1, "cross_check_por": wk == 1 and cs == 2})
         out.append({"kind": "fmap", "workers": 1, "cs": 1, "nmax": 2, "calls": 2})
         out.append({"kind": "fmap", "workers": 2, "cs": 1, "nmax": 2, "calls": 2})
+        for wk in (1, 2, 3):
+            for wq in (1, 2):
+                out.append({"kind": "mulpmap", "workers": wk, "nmax": 3, "wq": wq})
     return out
 
 
